@@ -279,7 +279,7 @@ func (env *c17Env) barrier(i int) string {
 	binary.BigEndian.PutUint64(nb[:], env.nonce)
 	b, _ := proto.Marshal(&tmp2pproto.PacketMsg{Data: nb[:]})
 	p.Send(c17EchoChannel, b)
-	end := time.After(5 * time.Second)
+	end := time.After(12 * time.Second)
 	tick := time.NewTicker(time.Millisecond)
 	defer tick.Stop()
 	for {
